@@ -11,6 +11,7 @@ Rewrites (one site at a time, applied to the source text):
   EQSWAP   `a == b` -> `b == a` (also !=)
   AUGEXP   `x += e` -> `x = x + e` for plain names
   PARENS   the test of an `if` / `while` wrapped in redundant parentheses
+  GUARD    `if c: BODY` as last statement of a loop body / function -> `if not c: continue / return` followed by BODY
   ALIAS    an attribute path used at least twice (`self.machine.events`) bound to a new local at the top of the function
 
 usage: twins.py Cnn [--kinds K ...] [--show N]
@@ -111,6 +112,29 @@ def twins_in(func_node, btext, offs):
             fn2.body.insert(pos, bind)
             ast.fix_missing_locations(fn2)
             out.append(("ALIAS", s, e, _indent(_u(fn2), col), func_node.lineno, "alias %s" % text))
+    # GUARD: `if c: BODY` as the last statement of a loop body / of the function -> `if not c: continue / return` + BODY
+    def _guard(parent_body, kind):
+        if not parent_body:
+            return
+        last = parent_body[-1]
+        if not (isinstance(last, ast.If) and not last.orelse):
+            return
+        if any(isinstance(x, (ast.FunctionDef, ast.AsyncFunctionDef, ast.Lambda)) for x in ast.walk(last)):
+            return
+        # a `continue`/`return` inserted must not change what follows: `last` is the last statement, so nothing follows
+        leave = ast.Continue() if kind == "loop" else ast.Return(value=None)
+        g = ast.If(test=ast.UnaryOp(op=ast.Not(), operand=last.test), body=[leave], orelse=[])
+        ns, ne = _rng(last, offs)
+        if btext[ns:ns + 4] == b"elif":
+            return
+        txt = _u(g) + "\n" + "\n".join(_u(st) for st in last.body)
+        out.append(("GUARD", ns, ne, _indent(txt, last.col_offset), last.lineno, "guard clause for `%s`" % _u(last.test)[:50]))
+    if not any(isinstance(x, (ast.Yield, ast.YieldFrom)) for x in ast.walk(func_node)):
+        # function tail: only when the function returns nothing anywhere else with a value after this point (it is the last statement)
+        _guard(func_node.body, "func")
+    for n in ast.walk(func_node):
+        if isinstance(n, (ast.For, ast.AsyncFor, ast.While)) and not n.orelse:
+            _guard(n.body, "loop")
     for n in ast.walk(func_node):
         if isinstance(n, ast.If) and n.orelse and not (len(n.orelse) == 1 and isinstance(n.orelse[0], ast.If)):
             m = ast.If(test=ast.UnaryOp(op=ast.Not(), operand=n.test), body=n.orelse, orelse=n.body)
